@@ -314,10 +314,12 @@ def check_invariants(ctx, facts):
             ctx.violate("C18.2", F, "offset-not-sum-of-counts", ap.relfile, s.line, "last_sealed_entry_offset is set to %s, not to itself plus the count recorded for the segment" % show(e)[:80])
     ctx.floor("C18.2", "stores to last_sealed_entry_offset", len(off_stores), 1)
     # (7) CreateTopic
-    tins = [s for s in ap.calls(re.compile(r"HashMap::insert$")) if any(o.kind == "field" and o.what[1] == "topics" for o in provenance(ap, s.node["args"][0]))]
+    # inserts into the topics map itself (not into a map inside a TopicState reached through it)
+    tins = [s for s in ap.calls(re.compile(r"HashMap::insert$")) if any(o.kind == "field" and o.what[1] == "topics" for o in provenance(ap, s.node["args"][0]))
+            and not any(o.kind == "field" and str(o.what[0]).endswith("TopicState") for o in provenance(ap, s.node["args"][0]))]
     guarded = False
     for T in all_tests(ap):
-        if T.kind == "call" and T.callee.endswith("HashMap::contains_key") and tins and ap.edge_guards(T.false_edge, tins[0].bb):
+        if T.kind == "call" and T.callee.endswith("HashMap::contains_key") and tins and all(ap.edge_guards(T.false_edge, t_.bb) for t_ in tins):
             guarded = True
     if tins and guarded:
         ctx.ok("C18.2", F, "(7) topics.insert only when the topic does not exist yet", ap.relfile, tins[0].line)
